@@ -77,6 +77,16 @@ Theorem C13_discover_tlsa_failure_defers :
 Proof. exact discover_tlsa_failure_defers. Qed.
 Print Assumptions C13_discover_tlsa_failure_defers.
 
+(* ... and so does a failing TLSA query at the canonical name of an MX that is an authenticated
+   alias: the records that could not be fetched may be the ones that decide *)
+Theorem C13_discover_canon_failure_defers :
+  forall v,
+    (v_addr v = QOk true (Some true) \/
+     (v_addr v = QOk false (Some true) /\ exists x, v_cname v = QOk true x)) ->
+    v_tlsa_canon v = QFail -> discover v = LErr.
+Proof. exact discover_canon_failure_defers. Qed.
+Print Assumptions C13_discover_canon_failure_defers.
+
 Example C13_nonvacuous :
   let m := fun (r : tlsa) (c : cert) => data r =? cid c in
   let ch := fun (roots inters : list cert) => match roots with [] => false | _ => true end in
